@@ -57,14 +57,25 @@ def dense_spec(vk, vals, cells_v, dv, cells_u=None, du=None, nrow=None, ncol=Non
     return M
 
 
-def run_form(vk, form, parallel=False):
+def run_form(vk, form, parallel=False, frame=()):
+    """integrate and assemble; `frame`: (label, array) pairs that the form only reads (integrand, dV, tables, values)"""
+    snaps = [(lab, a, vk.snapshot(a)) for lab, a in frame]
     if vk.sym:
         with coo.bound():
             vals = form.integrate(parallel=parallel)
+            vals0 = vk.snapshot(vals)
             A = form.assemble(parallel=parallel)
-        return vals, coo.todense(A)
-    vals = form.integrate(parallel=parallel)
-    return vals, coo.todense(form.assemble(parallel=parallel))
+        A = coo.todense(A)
+    else:
+        vals = form.integrate(parallel=parallel)
+        vals0 = vk.snapshot(vals)
+        A = coo.todense(form.assemble(parallel=parallel))
+    for lab, a, s0 in snaps:
+        vk.frame_unchanged(lab, a, s0)
+    if frame:
+        # the values returned by integrate() are not written to by the assembly that follows
+        vk.frame_unchanged("integrate() result after assemble()", np.asarray(vals), np.asarray(vals0))
+    return vals, A
 
 
 CART = []
@@ -98,7 +109,7 @@ def cartesian(vk, cfg):
             fun = vk.reals("f", (dv, dim, NQ, nc))
             spec = ref_einsum("aJqc,iJqc,qc->aic", g, fun, dV)
         form = IntegralFormCartesian(fun, v, dV, grad_v=cfg["grad_v"])
-        vals, A = run_form(vk, form, par)
+        vals, A = run_form(vk, form, par, frame=[("fun", fun), ("dV", dV), ("h", h), ("dhdX", g), ("field values", v.values)])
         vk.ensures_eq("integrate==defining-sum", np.asarray(vals).reshape(spec.shape), spec)
         vk.ensures_eq("assemble==placed-sum", A, dense_spec(vk, spec, CELLS, dv, nrow=dv * rv.mesh.npoints))
         vk.canary("integrate==0", np.asarray(vals).reshape(spec.shape), 0 * spec) if vk.sym else None
@@ -129,7 +140,7 @@ def cartesian(vk, cfg):
         fun = vk.reals("f", (dv, dim, du, dim, NQ, nc))
         spec = ref_einsum("aJqc,iJkLqc,bLqc,qc->aibkc", g, fun, gu_, dV)
     form = IntegralFormCartesian(fun, v, dV, u=u, grad_v=gv, grad_u=gu)
-    vals, A = run_form(vk, form, par)
+    vals, A = run_form(vk, form, par, frame=[("fun", fun), ("dV", dV), ("field values v", v.values), ("field values u", u.values)])
     vk.ensures_eq("integrate==defining-sum", np.asarray(vals).reshape(spec.shape), spec)
     vk.ensures_eq("assemble==placed-sum", A, dense_spec(vk, spec, CELLS, dv, cells_u, du, dv * rv.mesh.npoints, du * ru.mesh.npoints))
     vk.canary("assemble==transposed", A[:2, :2], A[:2, :2].T + 1) if vk.sym else None
